@@ -15,7 +15,7 @@ from aiocoap import Message, GET, NON, CON, error
 PROP = "C14"
 LEVEL = "model_checking"
 RULE = ("E2: all schedules with <= K deviations (drop / duplicate / reorder / delay / early submission / server reply mode "
-        "piggyback, separate CON, separate NON, silent / RST / ICMP error / sendmsg OSError) of scripted submissions of CON and "
+        "piggyback, separate CON, separate NON, silent / RST / ICMP error / sendmsg OSError / withdrawal of a held-back request) of scripted submissions of CON and "
         "NON requests to two peers; distinct = distinct schedule; states = world digests at choice points")
 ASSUMPTIONS = [
     "exchange time-outs are recognised by the head request failing with a time-out error (their timing is C03's subject)",
@@ -134,6 +134,9 @@ class BacklogScenario(NetScenario):
         else:
             path = rc.opt(m[4], 11, b"").decode()
             s = next(x for x in st.subs if x.name == path)
+        if getattr(s, "cancelled", False):
+            st.violations.append(Violation("withdrawn-message-transmitted", "never on the wire", s.name, "messagemanager.py:send_message", {}, key="withdrawn"))
+            return
         if s.first_tx is None:
             s.first_tx, s.mid, s.bytes = dg.t, m[2], d
             if s.mtype == "CON":
@@ -160,6 +163,10 @@ class BacklogScenario(NetScenario):
                 out.append(("rst:" + srv, 1))
                 out.append(("icmp:" + srv, 1))
                 out.append(("senderr:" + srv, 1))
+            # the sender withdraws a request that is still held back
+            for q in st.queue[srv]:
+                if q.obj is not None and q.first_tx is None and not q.obj.response.done():
+                    out.append(("cancel:" + q.name, 1))
         return out
 
     def remote_error(self, st, srv, why):
@@ -176,6 +183,13 @@ class BacklogScenario(NetScenario):
     def apply_fault(self, st, label):
         w = st.world
         kind, srv = label.split(":")
+        if kind == "cancel":
+            q = next(x for x in st.subs if x.name == srv)
+            q.obj.response.cancel()
+            w.loop.settle()
+            st.queue[q.srv].remove(q)
+            q.cancelled = True
+            return
         s = st.open[srv]
         if kind == "rst":
             st.open[srv] = None     # the model closes the exchange when the RST is processed
@@ -230,7 +244,7 @@ class BacklogScenario(NetScenario):
             return
         for srv in ("A", "B"):
             s = st.open[srv]
-            if s is not None and s.obj is not None and s.obj.response.done() and isinstance(s.obj.response.exception(), error.TimeoutError):
+            if s is not None and s.obj is not None and s.obj.response.done() and not s.obj.response.cancelled() and isinstance(s.obj.response.exception(), error.TimeoutError):
                 self.remote_error(st, srv, "timeout")
             elif s is not None and s.obj is None and not any(r.sockaddr[:2] == SRV[srv] for (r, mid) in st.cli.mman._active_exchanges) \
                     and s.first_tx is not None and st.world.loop.time() - s.first_tx > 40:
@@ -252,7 +266,7 @@ class BacklogScenario(NetScenario):
             st.violations.append(Violation("open-exchanges-vs-model", sorted(want_open), sorted(act), "messagemanager.py", {},
                                            key="more" if act - want_open else "fewer"))
         for s in st.subs:
-            if s.obj is not None and s.obj.response.done() and s.obj.response.exception() is not None \
+            if s.obj is not None and s.obj.response.done() and not s.obj.response.cancelled() and s.obj.response.exception() is not None \
                     and not isinstance(s.obj.response.exception(), error.Error):
                 st.violations.append(Violation("foreign-exception-type", "error.Error", core.exc_desc(s.obj.response.exception()),
                                                core.site_of(s.obj.response.exception()), {}, key="type"))
@@ -271,7 +285,7 @@ class BacklogScenario(NetScenario):
 
     def outcome(self, st):
         return tuple((s.name, s.first_tx is not None, s.dropped if s.obj is None else None if not s.obj.response.done() else
-                      ("ok" if s.obj.response.exception() is None else type(s.obj.response.exception()).__name__)) for s in st.subs)
+                      "withdrawn" if s.obj.response.cancelled() else ("ok" if s.obj.response.exception() is None else type(s.obj.response.exception()).__name__)) for s in st.subs)
 
 
 def run(tier, seed, jobs):
